@@ -259,6 +259,25 @@ func genStream(r *vh.Rand, schema []sleaf, o streamOpts, ts *int64) []*Noti {
 			out = append(out, nil)
 		}
 		n := &Noti{TS: *ts}
+		// timestamps need not increase: now and then a notification carries the
+		// timestamp of an earlier one (an unchanged repeat is then rejected as
+		// stale) or an older one (its updates of newer leaves are rejected, its
+		// deletes spare them), mixed with operations that do take effect
+		if len(out) > 0 && r.Chance(1, 6) {
+			var prev []*Noti
+			for _, pn := range out {
+				if pn != nil {
+					prev = append(prev, pn)
+				}
+			}
+			if len(prev) > 0 {
+				pick := prev[len(prev)-1-r.Intn(min(3, len(prev)))]
+				n.TS = pick.TS
+				if r.Chance(1, 2) {
+					n.TS -= int64(r.Intn(400))
+				}
+			}
+		}
 		base := schema[r.Intn(len(schema))]
 		element := r.Intn(100) < o.element
 		// prefix: nil / origin only / origin + leading elements of base
